@@ -78,6 +78,7 @@ type Model struct {
 	Calls       []Call
 	mu          sync.Mutex // guards Calls and the counters (replicas are used from several goroutines)
 	PutOK       int        // uploads that completed with matching content
+	LosePut     bool       // uploads are acknowledged but the object is not held afterwards (evicting / just-rotated store)
 	// ConsumedBad counts uploads whose buffer failed or mismatched (nothing stored).
 	ConsumedBad int
 	// BufferKind selects the kind of buffer Get returns for a present object:
@@ -106,6 +107,8 @@ const (
 	KindByteSlice = iota
 	KindStream
 	KindStreamWithTask
+	// KindProto: a message-backed buffer as an Action Cache replica returns (use with UniverseProto)
+	KindProto
 )
 
 type modelReader struct {
@@ -144,7 +147,24 @@ func (m *Model) buffer(d digest.Digest, i int) buffer.Buffer {
 		}
 		return b
 	}
+	if m.BufferKind == KindProto {
+		return buffer.NewProtoBufferFromByteSlice(&remoteexecution.ActionResult{}, m.Objects[i].Data, buffer.BackendProvided(buffer.Irreparable(d)))
+	}
 	return buffer.NewValidatedBufferFromByteSlice(m.Objects[i].Data)
+}
+
+// UniverseProto builds n objects whose contents are well-formed marshalled
+// ActionResult messages (exit_code = i+1), with real MD5 digests of those bytes.
+func UniverseProto(instanceName string, n int) []Object {
+	out := make([]Object, n)
+	for i := range out {
+		data := []byte{0x20, byte(i + 1)} // field 4 (exit_code), varint
+		f := digest.MustNewFunction(instanceName, remoteexecution.DigestFunction_MD5)
+		g := f.NewGenerator(int64(len(data)))
+		g.Write(data)
+		out[i] = Object{Digest: g.Sum(), Data: data}
+	}
+	return out
 }
 
 // NewModel creates a model with symbolic presence and failure bits.
@@ -252,7 +272,9 @@ func (m *Model) Put(ctx context.Context, d digest.Digest, b buffer.Buffer) error
 		return status.Errorf(codes.InvalidArgument, "%s: uploaded content does not match the digest", m.Name)
 	}
 	m.mu.Lock()
-	m.Present[i] = true
+	if !m.LosePut {
+		m.Present[i] = true
+	}
 	m.PutIdx = append(m.PutIdx, i)
 	m.PutOK++
 	m.mu.Unlock()
